@@ -83,6 +83,7 @@ type srcFrame struct {
 	data  []byte   // what a depacketiser must reassemble
 	pkts  [][]byte // marshalled RTP packets
 	first int      // index of its first packet in the track's packet list
+	newDims bool   // a keyframe whose dimensions differ from the previous keyframe's
 }
 
 type srcTrack struct {
@@ -145,14 +146,16 @@ func genVideo(t *rapid.T, mime string, nframes int, dims [][2]int) *srcTrack {
 		if key {
 			lastKey = j
 		}
+		newDims := false
 		if key && j > keyAt && len(dims) > 1 && rapid.IntRange(0, 3).Draw(t, "dimChange") == 0 {
 			dim = (dim + 1) % len(dims)
+			newDims = true
 		}
 		npk := rapid.IntRange(1, 6).Draw(t, "npk")
 		if rapid.IntRange(0, 25).Draw(t, "bigFrame") == 0 {
 			npk = rapid.IntRange(7, 20).Draw(t, "npkBig")
 		}
-		f := &srcFrame{idx: j, ts: ts0 + uint32(j)*3000, key: key, first: len(tr.pkts)}
+		f := &srcFrame{idx: j, ts: ts0 + uint32(j)*3000, key: key, first: len(tr.pkts), newDims: newDims}
 		for k := 0; k < npk; k++ {
 			var desc, body []byte
 			blen := rapid.IntRange(12, 60).Draw(t, "vbody")
@@ -508,7 +511,17 @@ func checkTrack(t *rapid.T, what string, tr *srcTrack, blocks [][]recBlock, loss
 		}
 		for idx := first; idx < len(tr.frames); idx++ {
 			if !seen[idx] {
-				t.Fatalf("C20: every packet was delivered or recoverable, but %s frame %d (after the first recorded frame %d) is missing from the recording", what, idx, first)
+				var perFile []string
+				for _, bl := range blocks {
+					var l []string
+					for _, b := range bl {
+						if j, ok := byData[string(b.data)]; ok {
+							l = append(l, fmt.Sprintf("%d@%d", j, b.tc))
+						}
+					}
+					perFile = append(perFile, "["+strings.Join(l, " ")+"]")
+				}
+				t.Fatalf("C20: every packet was delivered or recoverable, but %s frame %d (after the first recorded frame %d) is missing from the recording; recorded frame@ms per file: %s", what, idx, first, strings.Join(perFile, " "))
 			}
 		}
 	}
@@ -562,7 +575,7 @@ func runRecording(t *rapid.T, mode string, vmime string) (canon string, nt bool,
 		tracks = append(tracks, vt)
 	}
 	allowLoss := rapid.IntRange(0, 3).Draw(t, "allowLoss") == 0
-	exclK4 := 0
+	exclK4, exclK4audio := 0, 0
 	tornStart := false
 	var ad, vd delivery
 	if a != nil {
@@ -684,6 +697,21 @@ func runRecording(t *rapid.T, mode string, vmime string) (canon string, nt bool,
 	}
 	for (a != nil && ai < len(ad.order)) || (v != nil && vi < len(vd.order)) {
 		pickA := a != nil && ai < len(ad.order) && (v == nil || vi >= len(vd.order) || rapid.Bool().Draw(t, "turn"))
+		if !pickA && a != nil && exclK4 == 1 {
+			// known finding C20:resolution-change-in-batch, across tracks: a keyframe with new dimensions closes the file
+			// when it is written; an audio frame that precedes it in media time but reaches the recorder after it belongs
+			// to neither file (with sender reports it lies before the new file's origin) and is lost.  Audio is
+			// therefore never behind video at such a keyframe.
+			if k := vd.order[vi]; k >= 0 {
+				if f := v.frames[v.owner[k]]; f.newDims && k == f.first {
+					for ai < len(ad.order) && float64(a.owner[ad.order[ai]])*20 < float64(f.idx)*100/3 {
+						step(a, at, ad, ai)
+						ai++
+						exclK4audio++
+					}
+				}
+			}
+		}
 		if pickA {
 			step(a, at, ad, ai)
 			ai++
@@ -826,6 +854,7 @@ func runRecording(t *rapid.T, mode string, vmime string) (canon string, nt bool,
 		c20Rec.ClassN("excluded_known_two_keyframes_buffered(keyframe_made_delta)", v.exclCloseKeys)
 	}
 	c20Rec.ClassN("excluded_known_resolution_change_in_batch(delivery_made_plain)", exclK4)
+	c20Rec.ClassN("excluded_known_resolution_change_in_batch(audio_frames_moved_ahead_of_the_keyframe)", exclK4audio)
 	c20Rec.ClassN("observation_keyframe_flag_differs_from_source", res.keyFlagMismatch)
 	c20Rec.ClassN("audio_blocks_checked_against_sender_report_origin", res.avChecked)
 	c20Rec.Class("mode_" + mode)
